@@ -56,11 +56,21 @@ pub trait Interface: ErrorHandler {
     /// The result is written to the response buffer. Any remaining input that
     /// was not parsed is returned. If an error occurs, the remaining input
     /// is returned and the error is passed to the error handler.
-    async fn run<'a>(&mut self, mut input: &'a [u8], response: &mut impl crate::Write) -> &'a [u8] {
+    async fn run<'a>(&mut self, input: &'a [u8], response: &mut impl crate::Write) -> &'a [u8] {
         let mut header = self.root_node();
+        self.run_from(&mut header, input, response).await
+    }
 
+    /// Like [Interface::run], but starts at the given header path and leaves
+    /// the path reached in `header`, so that a program message which was
+    /// returned as incomplete can be continued where it stopped.
+    #[doc(hidden)]
+    async fn run_from<'a>(
+        &mut self, header: &mut &'static tree::Node, mut input: &'a [u8],
+        response: &mut impl crate::Write,
+    ) -> &'a [u8] {
         while !input.is_empty() {
-            let result = parser::parse(self.root_node(), header, input);
+            let result = parser::parse(self.root_node(), *header, input);
 
             #[cfg(feature = "defmt")]
             defmt::trace!("Run: {:?}", input);
@@ -80,7 +90,7 @@ pub trait Interface: ErrorHandler {
                 match input.iter().position(|b| *b == b'\n') {
                     Some(position) => {
                         input = &input[position + 1..];
-                        header = self.root_node();
+                        *header = self.root_node();
                         continue;
                     }
                     None => return input,
@@ -98,16 +108,16 @@ pub trait Interface: ErrorHandler {
 
                 if call.terminated {
                     // Reset the header to the root node if a call is ended with a terminator.
-                    header = self.root_node();
+                    *header = self.root_node();
                 }
                 else if let Some(call_header) = call.header {
                     // Update the current header, if the current command is not a common command.
-                    header = call_header;
+                    *header = call_header;
                 }
             }
             else {
                 // An empty program message unit consumed a terminator: reset the path as well.
-                header = self.root_node();
+                *header = self.root_node();
             }
 
             input = i;
@@ -121,6 +131,9 @@ pub trait Interface: ErrorHandler {
     
         let mut proc_offset = 0;
         let mut read_offset = 0;
+
+        // The header path of the message that is currently being processed.
+        let mut header = self.root_node();
     
         loop {
             let count = adapter.read(&mut cmd_buf[read_offset..]).await?;
@@ -134,7 +147,7 @@ pub trait Interface: ErrorHandler {
                 let terminator_pos = read_offset + position;
                 let data = &cmd_buf[proc_offset..=terminator_pos];
     
-                let remaining = self.run(data, &mut res_buf).await;
+                let remaining = self.run_from(&mut header, data, &mut res_buf).await;
 
                 if !res_buf.is_empty() {
                     adapter.write(&res_buf).await?;
@@ -168,6 +181,7 @@ pub trait Interface: ErrorHandler {
                 #[cfg(feature = "defmt")]
                 defmt::warn!("SCPI buffer overflow, resetting buffer");
                 read_offset = 0;
+                header = self.root_node();
             }
         }
     }
